@@ -46,6 +46,20 @@ func helloFor(name string) []byte {
 	return h
 }
 
+// specRejected is the property's own name policy, independent of the code under test:
+// no server name, an IP literal, or one of the policy-rejected suffixes.
+func specRejected(name string) bool {
+	if name == "" || net.ParseIP(name) != nil {
+		return true
+	}
+	for _, s := range []string{".iproxy.cloud", ".after.blue", ".spothot.online", ".speedy.red"} {
+		if strings.HasSuffix(name, s) {
+			return true
+		}
+	}
+	return false
+}
+
 type backend struct {
 	name string
 	mu   sync.Mutex
@@ -131,6 +145,9 @@ func runE2E(op string, rep *hx.Report) (lines, impl []string, skipped string) {
 			return &sniproxy.Dest{Name: "~", Home: true}, nil
 		case domain == "fwd.lan":
 			return &sniproxy.Dest{ForwardTCP: fwdLis.Addr().String()}, nil
+		case domain == "", net.ParseIP(domain) != nil, strings.HasSuffix(domain, ".speedy.red"), strings.HasSuffix(domain, ".after.blue"):
+			// a permissive lookup: only the proxy's own name policy keeps these away from endpoint a
+			return &sniproxy.Dest{Name: "epa"}, nil
 		}
 		return nil, fmt.Errorf("refused")
 	}
@@ -256,7 +273,7 @@ func runE2E(op string, rep *hx.Report) (lines, impl []string, skipped string) {
 	want := map[string][]string{}
 	for _, c := range conns {
 		d, err := lookup(c.sni)
-		if sniproxy.VerifIsRejectedDomain(c.sni) || err != nil {
+		if specRejected(c.sni) || err != nil {
 			continue
 		}
 		switch {
@@ -320,7 +337,12 @@ func runUnit(op string, off **sniproxy.VerifOffice, conns map[int]net.Conn, rep 
 	case strings.HasPrefix(op, "office deliver"):
 		c1, _ := net.Pipe()
 		conns[int(get("conn"))] = c1
-		return (*off).Deliver(get("id"), get("key"), c1)
+		cur, registered := (*off).Registered(get("id"))
+		res := (*off).Deliver(get("id"), get("key"), c1)
+		if res == "ok" && (!registered || cur != get("key")) {
+			rep.Fail("side-conn-misdelivered", fmt.Sprintf("a connection dialled back with (id %d, key %d) was accepted by the box registered with key %d", get("id"), get("key"), cur), []string{"office reset", fmt.Sprintf("office newbox id=%d key=%d", get("id"), cur), op})
+		}
+		return res
 	case strings.HasPrefix(op, "office remove"):
 		(*off).Remove(get("id"), get("key"))
 		return "ok"
